@@ -72,6 +72,8 @@ On(m) == m \in Msgs
 
 \* parameter records a governance change may install (a configuration overrides this: ParamAlts <- ...)
 ParamAlts == {}
+\* what a module context's owner does from inside its response / state callback (a configuration may widen this)
+Reactions == {<<"", "">>}
 ParamGate == TRUE    \* the simulator overrides this to make parameter changes rarer than messages
 
 \* argument sets: everything in exhaustive runs, one random element per evaluation in simulation
@@ -120,14 +122,16 @@ MsgStep ==
                     id |-> nctx + 1]
     \/ On("ModCreate") /\ nctx < MaxCtx /\
           \E c \in Pick(Consumers), s \in Pick(SvcNames), ps \in Pick(ProvSeqs), cap \in Pick(Caps), t \in Pick(Timeouts),
-             rep \in Pick(BOOLEAN), f \in Pick(Freqs), n \in Pick(Totals), st \in Pick({"running", "paused"}), thr \in Pick(Thresholds) :
+             rep \in Pick(BOOLEAN), f \in Pick(Freqs), n \in Pick(Totals), st \in Pick({"running", "paused"}), thr \in Pick(Thresholds),
+             ra \in Pick(Reactions) :
           /\ (rep => (f = 0 \/ f >= t))
           /\ (~rep => f = 0 /\ n = 1)
-          /\ ModCreate("vmod", c, s, ps, "in", cap, TRUE, TRUE, t, FALSE, rep, f, IF rep THEN n ELSE 0, st, thr)
+          /\ ModCreateR("vmod", c, s, ps, "in", cap, TRUE, TRUE, t, FALSE, rep, f, IF rep THEN n ELSE 0, st, thr, ra[1], ra[2])
           /\ ev' = [name |-> "ModCreate", ok |-> TRUE, signer |-> c, module |-> "vmod", svc |-> s,
                     provs |-> ps, input |-> "in", cap |-> cap, capok |-> TRUE, inok |-> TRUE,
                     timeout |-> t, super |-> FALSE, rep |-> rep, freq |-> f,
-                    total |-> IF rep THEN n ELSE 0, state |-> st, thr |-> thr, id |-> nctx + 1]
+                    total |-> IF rep THEN n ELSE 0, state |-> st, thr |-> thr, id |-> nctx + 1,
+                    rresp |-> ra[1], rstate |-> ra[2]]
     \/ On("Pause") /\ \E id \in DOMAIN ctx : LET c == ctx[id].cons IN
           /\ Pause(c, id)
           /\ ev' = [name |-> "Pause", ok |-> TRUE, signer |-> c, id |-> id]
